@@ -124,11 +124,11 @@ Qed.
 
 (* ---- lookup_total, flat ---- *)
 Lemma hit_total : forall root toks p n, flat_inv root -> reach root p n -> pmatch p toks = true ->
-  exists ps, read_params toks 0 (node_params n) = Some ps /\ hit toks n 0 = MHit (node_hs n) (node_ls n) ps 0.
+  exists ps, read_params toks 0 (node_plist n) = Some ps /\ hit toks n 0 = MHit (node_hs n) (node_ls n) ps 0.
 Proof.
   intros root toks p n FI Rn M. destruct (fi_bound _ FI p n Rn) as [B _]. cbn [app] in B.
   apply pmatch_length in M. unfold hit.
-  destruct (read_params_ok toks 0 (node_params n)) as (m & E); [|rewrite E; eauto].
+  destruct (read_params_ok toks 0 (node_plist n)) as (m & E); [|rewrite E; eauto].
   intros x Ix. specialize (B x Ix). lia.
 Qed.
 
@@ -182,7 +182,7 @@ Lemma lookup_flat_pf : forall path ops name,
     | None => get_handler_node path root name = LNone
     | Some (p, hid) => exists n g ps gs,
         reach root p n /\ node_hs n = Some (hid, g) /\ pmatch p tk = true /\
-        read_params tk 0 (node_params n) = Some ps /\ group_to_string name tk g = Some gs /\
+        read_params tk 0 (node_plist n) = Some ps /\ group_to_string name tk g = Some gs /\
         get_handler_node path root name = LHit hid (node_ls n) ps gs
     end
   end.
@@ -202,9 +202,9 @@ Proof.
       * destruct (best_of_some _ _ _ _ _ BO) as (Ix & Mx & _). cbn [fst] in Mx. apply pmatch_nil_inv in Mx. subst p.
         apply REG in Ix. destruct Ix as (g' & Hp). apply has_pattern_node in Hp. cbn in Hp.
         rewrite HS in Hp. injection Hp as <- <-.
-        assert (PR : node_params root = []).
+        assert (PR : node_plist root = []).
         { destruct (fi_bound _ FI [] root (R_nil root)) as [B _]. cbn in B.
-          destruct (node_params root) as [|x r]; [reflexivity|]. specialize (B x (or_introl eq_refl)). lia. }
+          destruct (node_plist root) as [|x r]; [reflexivity|]. specialize (B x (or_introl eq_refl)). lia. }
         destruct (group_to_string name [] g) as [gs|] eqn:GS; [|congruence].
         exists root, g, [], gs. rewrite PR. repeat split; auto. constructor.
       * pose proof (best_of_none _ _ _ _ BO _ IR). discriminate.
